@@ -56,6 +56,7 @@ pub fn meta(prop: &str) -> Meta {
             outside: &["validate_num_of_signers for all u16 pairs is decided by the Kani kernel K6 (E2)", "n > 7 (10)", "symbolic identifiers"],
             ..base
         },
+        "C19" => Meta { dense_variant: Some(4), ..base },
         _ => base,
     }
 }
